@@ -105,6 +105,8 @@ pub fn c12_case(rs: u64, _nonce: u64, replay: Option<Vec<u32>>) -> CaseOutcome {
     let mut ranges = 0u64;
     let mut odd = 0u64;
     let mut typed = 0u64;
+    let mut seq_progs = 0u64;
+    let mut parsed_views = 0u64;
     for (di, spec) in specs.iter().enumerate() {
         let sd = match group.subdevice(md, di) {
             Ok(s) => s,
@@ -126,15 +128,21 @@ pub fn c12_case(rs: u64, _nonce: u64, replay: Option<Vec<u32>>) -> CaseOutcome {
             Err(e) => out.violations.push(sim_error_violation("eeprom_size", &e)),
         }
         // description()
+        // Raw (stored) length of the description string: only a string longer than the 128 byte
+        // capacity of the returned value may be refused.
+        let desc_raw_len = spec.image.general().and_then(|g| if g.name_idx == 0 { None } else { spec.image.strings().and_then(|v| v.get(g.name_idx as usize - 1)).map(|s| s.len()) });
+        if let Some(l) = desc_raw_len {
+            out.probes.insert(format!("description_len_{}", if l == 128 { "exactly_128" } else if l > 128 { "above_128" } else { "below_128" }), 1);
+        }
         match w.sim.block_on(sd.description()) {
             Ok(Ok(d)) => {
                 let want = spec.image.general().and_then(|g| spec.image.visible_string(g.name_idx));
                 let got = d.map(|s| s.as_str().to_string());
-                if got != want && !(want.as_ref().map_or(false, |w| w.len() > 128)) {
+                if got != want && !(desc_raw_len.map_or(false, |l| l > 128)) {
                     out.violations.push(viol("wrong-description", format!("device {}: description() = {:?}, EEPROM encodes {:?}", di, got, want)));
                 }
             }
-            Ok(Err(Error::StringTooLong { .. })) => {}
+            Ok(Err(Error::StringTooLong { .. })) if desc_raw_len.map_or(false, |l| l > 128) => {}
             Ok(Err(e)) => out.violations.push(viol("description-error", format!("device {}: description() failed with {:?}", di, e))),
             Err(e) => out.violations.push(sim_error_violation("description", &e)),
         }
@@ -201,6 +209,220 @@ pub fn c12_case(rs: u64, _nonce: u64, replay: Option<Vec<u32>>) -> CaseOutcome {
         if !out.violations.is_empty() {
             break;
         }
+        // Operation sequences on ONE range (gen >= 2): this is how every category parser walks its
+        // category. Reads return consecutive bytes, clamped to the range; skips move the position.
+        if crate::tape::gen() >= 2 {
+            let addr = 0x1000 + di as u16;
+            for _ in 0..(3 + w.sim.tape.choose(4, "n_range_progs")) {
+                let start = match w.sim.tape.choose(3, "prog_start_class") {
+                    0 => 0x40 + w.sim.tape.choose(0x60, "prog_start_cat"),
+                    1 => w.sim.tape.choose(0x40, "prog_start_hdr"),
+                    _ => w.sim.tape.choose(words.saturating_sub(64).max(1), "prog_start_any"),
+                };
+                let room = (words - start.min(words)) * 2;
+                let len_bytes = (1 + w.sim.tape.choose(64, "prog_len")).min(room.max(1)) & !0usize;
+                let len_bytes = if len_bytes % 2 == 1 { len_bytes + 1 } else { len_bytes }; // start_at takes bytes, ranges are whole words
+                if len_bytes > room {
+                    continue;
+                }
+                let n_ops = 2 + w.sim.tape.choose(6, "prog_ops");
+                let mut ops: Vec<(u8, u16)> = Vec::new();
+                // model
+                let (mut pos, end) = (start * 2, start * 2 + len_bytes);
+                let mut want: Vec<u8> = Vec::new();
+                let mut want_err = false;
+                let mut want_done = 0usize;
+                for _ in 0..n_ops {
+                    let kind = w.sim.tape.choose(4, "prog_op_kind");
+                    match kind {
+                        0 | 3 => {
+                            let n = w.sim.tape.pick(&[3usize, 1, 2, 8, 5, 4, 7, 6, 16, 0], "prog_read_n");
+                            ops.push((0, n as u16));
+                            if !want_err {
+                                let m = n.min(end - pos);
+                                want.extend_from_slice(&img[pos..pos + m]);
+                                pos += m;
+                                want_done += 1;
+                            }
+                        }
+                        1 => {
+                            let n = w.sim.tape.choose(6, "prog_skip_n");
+                            ops.push((1, n as u16));
+                            if !want_err {
+                                if pos + n >= end {
+                                    want_err = true;
+                                } else {
+                                    pos += n;
+                                    want_done += 1;
+                                }
+                            }
+                        }
+                        _ => {
+                            // read_byte does not look at the range end; only issue it inside the range
+                            if !want_err && pos < end {
+                                ops.push((2, 0));
+                                want.push(img[pos]);
+                                pos += 1;
+                                want_done += 1;
+                            }
+                        }
+                    }
+                }
+                let mut buf = vec![0x5Au8; 200];
+                let res = w.sim.block_on(ethercrab::verif::eeprom_range_ops(md, addr, start as u16, len_bytes as u16, &ops, &mut buf));
+                seq_progs += 1;
+                match res {
+                    Err(e) => {
+                        out.violations.push(sim_error_violation("eeprom range operations", &e));
+                        break;
+                    }
+                    Ok((stored, done, err)) => {
+                        let ok = stored == want.len() && buf[..stored] == want[..] && done == want_done && err.is_some() == want_err;
+                        if !ok {
+                            out.violations.push(viol(
+                                "range-sequence-wrong",
+                                format!("device {} ({} byte SII reads): on the range of {} bytes at word {:#06x} the operations {:?} (0 = read n, 1 = skip n, 2 = read one byte) returned {} bytes {:02x?} after {} operations (error {:?}); stored there: {} bytes {:02x?} after {} operations (error expected: {})", di, if spec.read8 { 8 } else { 4 }, len_bytes, start, ops, stored, &buf[..stored.min(200)], done, err, want.len(), want, want_done, want_err),
+                            ));
+                            break;
+                        }
+                    }
+                }
+            }
+            if !out.violations.is_empty() {
+                break;
+            }
+            // The parsed view: every crate-internal EEPROM query against what the image encodes.
+            match w.sim.block_on(ethercrab::verif::eeprom_parsed(md, addr)) {
+                Err(e) => {
+                    out.violations.push(sim_error_violation("eeprom queries", &e));
+                    break;
+                }
+                Ok(p) => {
+                    parsed_views += 1;
+                    let im = &spec.image;
+                    let mut bad = |what: &str, got: String, want: String, out: &mut CaseOutcome| {
+                        out.violations.push(viol(&format!("parsed-{}-wrong", what), format!("device {}: {} reported as {}, the EEPROM encodes {}", di, what, got, want)));
+                    };
+                    // sync managers (capacity 8)
+                    let sms = im.sync_managers();
+                    let want_sm: Vec<(u16, u16, u8, u8, u8, u8)> = sms
+                        .iter()
+                        .map(|s| {
+                            let eff = if s.usage != 0 {
+                                s.usage
+                            } else {
+                                match (s.control & 3, (s.control >> 2) & 3) {
+                                    (0, 0) => 4,
+                                    (0, _) => 3,
+                                    (_, 0) => 2,
+                                    _ => 1,
+                                }
+                            };
+                            (s.start, s.length, s.control, s.enable, s.usage, eff)
+                        })
+                        .collect();
+                    match &p.sync_managers {
+                        Ok(got) => {
+                            if sms.len() > 8 || got.as_slice() != want_sm.as_slice() {
+                                bad("sync-managers", format!("{:x?}", got), format!("{:x?}", want_sm), &mut out);
+                            }
+                        }
+                        Err(e) => {
+                            if sms.len() <= 8 {
+                                bad("sync-managers", format!("error {:?}", e), format!("{:x?}", want_sm), &mut out);
+                            }
+                        }
+                    }
+                    // FMMU usage (0xff is an alternative spelling of "unused")
+                    // Category lengths are in words: an odd number of FMMUs is stored with one pad
+                    // byte (zero = unused), which is indistinguishable from a declared unused FMMU.
+                    let mut want_f: Vec<u8> = im.fmmus().iter().map(|u| if *u == 0xff { 0 } else { *u }).collect();
+                    if want_f.len() % 2 == 1 {
+                        want_f.push(0);
+                    }
+                    match &p.fmmus {
+                        Ok(got) => {
+                            if want_f.len() <= 16 && got.as_slice() != want_f.as_slice() {
+                                bad("fmmu-usage", format!("{:?}", got), format!("{:?}", want_f), &mut out);
+                            }
+                        }
+                        Err(e) => {
+                            if want_f.len() <= 16 {
+                                bad("fmmu-usage", format!("error {:?}", e), format!("{:?}", want_f), &mut out);
+                            }
+                        }
+                    }
+                    // FMMU -> sync manager mapping
+                    let want_x: Vec<u8> = im.fmmu_ex().iter().map(|e| e[1]).collect();
+                    match &p.fmmu_mappings {
+                        Ok(got) => {
+                            if want_x.len() <= 16 && got.as_slice() != want_x.as_slice() {
+                                bad("fmmu-mapping", format!("{:?}", got), format!("{:?}", want_x), &mut out);
+                            }
+                        }
+                        Err(e) => {
+                            if want_x.len() <= 16 {
+                                bad("fmmu-mapping", format!("error {:?}", e), format!("{:?}", want_x), &mut out);
+                            }
+                        }
+                    }
+                    if !want_x.is_empty() {
+                        out.probes.insert(format!("fmmu_ex_entries_{}", if want_x.len() >= 2 { "2_or_more" } else { "1" }), 1);
+                    }
+                    // PDOs
+                    for (name, got, want) in [("tx-pdos", &p.tx_pdos, im.tx_pdos()), ("rx-pdos", &p.rx_pdos, im.rx_pdos())] {
+                        let want_rows: Vec<(u16, u8, u8, u16)> = want.iter().map(|d| (d.index, d.entries.len() as u8, d.sm, d.bit_len() as u16)).collect();
+                        let representable = want.len() <= 64 && want.iter().all(|d| d.bit_len() <= 0xffff && d.entries.len() <= 255);
+                        match got {
+                            Ok(g) => {
+                                if representable && g.as_slice() != want_rows.as_slice() {
+                                    bad(name, format!("{:x?}", g), format!("{:x?} (index, entries, sync manager, bits)", want_rows), &mut out);
+                                }
+                            }
+                            Err(e) => {
+                                if representable {
+                                    bad(name, format!("error {:?}", e), format!("{:x?}", want_rows), &mut out);
+                                }
+                            }
+                        }
+                    }
+                    // mailbox settings
+                    let m = &im.header.mailbox;
+                    let want_m = (m.recv_offset, m.recv_size, m.send_offset, m.send_size, m.protocols as u8);
+                    match &p.mailbox {
+                        Ok(got) if *got == want_m => {}
+                        other => bad("mailbox", format!("{:x?}", other), format!("{:x?}", want_m), &mut out),
+                    }
+                    // general category
+                    match (&p.general, im.general()) {
+                        (Ok(got), Some(g)) => {
+                            let want_g = (g.name_idx, g.coe_details, g.foe != 0, g.eoe != 0, g.ebus_current);
+                            if *got != want_g {
+                                bad("general", format!("{:?}", got), format!("{:?}", want_g), &mut out);
+                            }
+                        }
+                        (Err(_), None) => {}
+                        (got, want) => bad("general", format!("{:?}", got), format!("{:?}", want.map(|g| (g.name_idx, g.coe_details, g.foe, g.eoe, g.ebus_current))), &mut out),
+                    }
+                    let h = &im.header;
+                    match &p.identity {
+                        Ok(got) if *got == (h.vendor, h.product, h.revision, h.serial) => {}
+                        other => bad("identity", format!("{:x?}", other), format!("{:x?}", (h.vendor, h.product, h.revision, h.serial)), &mut out),
+                    }
+                    match &p.station_alias {
+                        Ok(got) if *got == h.alias => {}
+                        other => bad("alias", format!("{:x?}", other), format!("{:x?}", h.alias), &mut out),
+                    }
+                    match &p.size_bytes {
+                        Ok(got) if *got == (h.size_word as usize + 1) * 128 => {}
+                        other => bad("size", format!("{:?}", other), format!("{}", (h.size_word as usize + 1) * 128), &mut out),
+                    }
+                }
+            }
+            if !out.violations.is_empty() {
+                break;
+            }
+        }
         // Typed reads over a menu of T.
         for _ in 0..6 {
             let start = w.sim.tape.choose(words.saturating_sub(8).max(1), "typed_start");
@@ -250,6 +472,8 @@ pub fn c12_case(rs: u64, _nonce: u64, replay: Option<Vec<u32>>) -> CaseOutcome {
     out.probes.insert("ranges_read".into(), ranges);
     out.probes.insert("odd_length_ranges".into(), odd);
     out.probes.insert("typed_reads".into(), typed);
+    out.probes.insert("range_operation_sequences".into(), seq_progs);
+    out.probes.insert("parsed_views_compared".into(), parsed_views);
     out.probes.insert("big_eeprom(>=256kbit)".into(), big as u64);
     out.probes.insert("rich_image".into(), rich as u64);
     if lag {
@@ -265,8 +489,49 @@ pub fn c12_case(rs: u64, _nonce: u64, replay: Option<Vec<u32>>) -> CaseOutcome {
 // ---------------------------------------------------------------------------------------------
 
 fn hostile_image(t: &mut Tape) -> (Vec<u8>, &'static str) {
-    let class = t.choose(10, "img_class");
+    let class = t.choose(if crate::tape::gen() >= 2 { 11 } else { 10 }, "img_class");
     let size = t.pick(&[2048usize, 128, 256, 1024, 4096, 16384, 512], "img_size");
+    if class == 10 {
+        // A category chain that leaves the 64 Ki word address space (exactly at its end, or a few
+        // words beyond) and whose continuation in the header area leads back to the first category:
+        // a walk that wraps instead of stopping never ends.
+        let cfg = GenCfg { mailbox_pct: 50, ..GenCfg::default() };
+        let spec = netgen::gen_device(t, &cfg, 0);
+        let mut img = spec.eeprom.clone();
+        if img.len() < 0x100 {
+            img.resize(0x100, 0xff);
+        }
+        let put = |img: &mut Vec<u8>, word: usize, v: u16| img[word * 2..word * 2 + 2].copy_from_slice(&v.to_le_bytes());
+        // Types no query looks for, so every walk goes round.
+        let ty = |t: &mut Tape| t.pick(&[0x1000u16, 0x0800, 0x2abc, 0x0002, 0x7fff], "cycle_type");
+        // Optionally keep some real categories in front of the wrapping one.
+        let mut at = 0x40usize;
+        if t.flag(40, 100, "cycle_keep_first") {
+            let len = u16::from_le_bytes([img[at * 2 + 2], img[at * 2 + 3]]) as usize;
+            let ty0 = u16::from_le_bytes([img[at * 2], img[at * 2 + 1]]);
+            if ty0 != 0xffff && at + 2 + len + 2 < img.len() / 2 {
+                at += 2 + len;
+            }
+        }
+        let land = t.pick(&[0usize, 1, 2, 8, 0x3e, 0x20, 5], "cycle_land");
+        let v = ty(t);
+        put(&mut img, at, v);
+        put(&mut img, at + 1, ((0x10000 + land - (at + 2)) & 0xffff) as u16);
+        // From the landing word back to the first category, in one or two hops.
+        let two_hops = land + 6 <= 0x40 && t.flag(30, 100, "cycle_two_hops");
+        let v = ty(t);
+        put(&mut img, land, v);
+        if two_hops {
+            let mid = land + 2 + t.choose(0x40 - (land + 4) - 1, "cycle_mid");
+            put(&mut img, land + 1, (mid - (land + 2)) as u16);
+            let v = ty(t);
+            put(&mut img, mid, v);
+            put(&mut img, mid + 1, (0x40 - (mid + 2)) as u16);
+        } else {
+            put(&mut img, land + 1, (0x40 - (land + 2)) as u16);
+        }
+        return (img, "wrap-cycle");
+    }
     if class == 9 {
         // A consistent image whose PDOs are as large as the format allows: several PDOs of up to 255
         // entries of up to 255 bits each, so that bit-length sums exceed 16 bits.
